@@ -79,11 +79,20 @@ Theorem c20_literal_errors_segment : forall q src st,
   match accept_string q src with
   | Ok (raw, rest) => ok_or_syntax (site_value st q raw)
   | LErr LiquidSyntaxError None => True
-  | PyExc IndexError => src = []
   | _ => False
   end.
 Proof. exact literal_errors_segment. Qed.
 Print Assumptions c20_literal_errors_segment.
+
+(** The same for the scanner of every other literal: it raises nothing but
+    LiquidSyntaxError (and never runs out of fuel) whenever the sub-expression
+    scanner does so and returns a suffix of its input. *)
+Theorem c20_literal_errors_token : forall (E : Type) (sub : str -> res (E * str)),
+  (forall x, ok_or_syntax (sub x)) ->
+  (forall x e r, sub x = Ok (e, r) -> (length r <= length x)%nat) ->
+  forall q src, ok_or_syntax (accept_template_string E sub q src).
+Proof. exact literal_errors_token. Qed.
+Print Assumptions c20_literal_errors_token.
 
 (** Every INT spelling [-?D+([eE]\+?D+)?] denotes exactly [(+|-)D * 10^X], at any
     magnitude, or is rejected with LiquidValueError beyond the digit limit. *)
